@@ -250,6 +250,42 @@ pub fn run(p: &Params, rep: &mut Report) {
         ck.rep.eval(Some(&format!("border{}|{}", fmt_w(&subj), fmt_w(&pat))));
         ck.rep.inc("bordered_pattern_tuples");
     }
+    // periodic, palindromic and constant strings: subject u^k v against patterns u^j w (every period 1-4 over two letters)
+    let nper = p.size(400, 4000);
+    for _ in 0..nper {
+        let plen = 1 + rng.usize(4);
+        let u: Vec<u32> = (0..plen).map(|_| *rng.pick(&[0x61u32, 0x62])).collect();
+        let rep_u = |k: usize| -> Vec<u32> { u.iter().cycle().take(k).copied().collect() };
+        let mut a = rep_u(rng.usize(40));
+        match rng.below(4) {
+            0 => a.push(0x63),
+            1 => {
+                // palindrome: the periodic part followed by its mirror image
+                let mut r = a.clone();
+                r.reverse();
+                a.extend(r);
+            }
+            2 => a.insert(a.len() / 2, 0x63),
+            _ => {}
+        }
+        let mut b = rep_u(rng.usize(12));
+        if rng.chance(1, 3) {
+            b.push(*rng.pick(&[0x61u32, 0x62, 0x63]));
+        }
+        if rng.chance(1, 4) {
+            b.reverse();
+        }
+        let c: Vec<u32> = match rng.below(3) {
+            0 => vec![],
+            1 => u.clone(),
+            _ => b.iter().chain(b.iter()).copied().collect(),
+        };
+        let i = rng.below(a.len() as u64 + 2) as i32 - 1;
+        let n = rng.below(a.len() as u64 + 2) as i32;
+        check_tuple(&mut ck, &a, &b, &c, i, n);
+        ck.rep.eval(Some(&format!("per{}|{}|{}|{}", fmt_w(&a), fmt_w(&b), i, n)));
+        ck.rep.inc("periodic_tuples");
+    }
     // long subjects (1k-20k characters, two letters, planted patterns): same definitions, bigger indices
     let nlong = p.size(40, 400);
     for _ in 0..nlong {
